@@ -65,13 +65,21 @@ def split_meta(cx, b, type_byte):
     return payload
 
 
-def _decode_both(cx, mido, msg, b, delta):
+def _decode_both(cx, mido, msg, b, delta, concrete_bytes=False):
     """from_bytes and read_meta_message must both give back an equal message."""
     from mido.midifiles import midifiles as mf
     m2, exc = cx.raises(lambda: mido.MetaMessage.from_bytes(list(b)), label='from_bytes-raises-nothing')
     if exc is None:
         cx.check(type(m2) is type(msg) and m2 == msg.copy(time=0), 'from_bytes-roundtrip')
         cx.observe('from_bytes', vars(m2))
+    # the same bytes as an immutable sequence (tuple always; bytes/bytearray when every byte is concrete)
+    srcs = [tuple(b)]
+    if concrete_bytes:
+        srcs += [bytes(int(x) for x in b), bytearray(int(x) for x in b)]
+    for src in srcs:
+        m4, exc = cx.raises(lambda: mido.MetaMessage.from_bytes(src), label='from_bytes-raises-nothing')
+        if exc is None:
+            cx.check(type(m4) is type(msg) and m4 == msg.copy(time=0), 'from_bytes-roundtrip')
     f = stubs.SymFile(list(b[1:])) if cx.symbolic else _bio(b[1:])
     m3, exc = cx.raises(lambda: mf.read_meta_message(f, delta), label='read-raises-nothing')
     if exc is None:
@@ -202,7 +210,7 @@ def key_signature_payload(cx):
         cx.check(cx.eq(back, [0xFF, 0x59, 2, sf, mi]), 'bad-key-bytes-rejected')
 
 
-TEXTS = ['', 'a', 'Hello, World!', 'é\xff\x00\x7f', ' \t\n', '(1,2)=x', 'x' * 127, 'y' * 128, 'z' * 129,
+TEXTS = ['', 'a', 'Hello, World!', 'é\xff\x00\x7f', ' \t\n', '(1,2)=x', 'name\x00', '\x00', ' padded ', 'line\n', '\x00\x00x', 'x' * 127, 'y' * 128, 'z' * 129,
          'q' * 16383, 'r' * 16384, 'ü' * 300]
 
 
@@ -220,7 +228,7 @@ def text_meta(cx, type):
     b = msg.bytes()
     p = split_meta(cx, b, tb)
     cx.check(p is not None and list(p) == list(text.encode('latin1')), 'payload=latin1')
-    _decode_both(cx, mido, msg, b, delta)
+    _decode_both(cx, mido, msg, list(b[:2]) + [int(x) for x in b[2:]], delta, concrete_bytes=True)
     bad = [1, None, b'abc', ['a'], 1.5][cx.choice('bad', 5)]
     _, exc = cx.raises(lambda: mido.MetaMessage(type, **{attr: bad}), *REJECT, label='non-str-rejected')
     cx.check(exc is not None, 'non-str-rejected')
@@ -363,7 +371,7 @@ BOUNDS = {
              'rates, delta symbolic in [0, 2^28); time_signature denominator symbolic over 320-bit integers from -2^20 to '
              '2^256+2^20 (bit-length bands); all 30 key names + 12 invalid, all (sf 0..255, mi 0..3) payloads on the decoding '
              'side; VLQ over [-2^40, 2^40]; payload length of from_bytes symbolic in [0, 2^21] (+-1 byte); 8 text types x '
-             '12 texts incl. lengths 0,1,127,128,129,16383,16384; unknown meta: any unassigned type byte < 128, data '
+             '17 texts (incl. trailing NUL / blanks) and lengths 0,1,127,128,129,16383,16384; unknown meta: any unassigned type byte < 128, data '
              'length 0..3 symbolic; sequencer_specific data length 0..3 wide symbolic',
     'thorough': 'as quick; unknown/sequencer data up to length 16; denominator in 32 finer bit-length bands',
 }
